@@ -63,16 +63,37 @@ TRUSTED = [
 ]
 
 
+def _history(r, case, depth=2, width=3, p=0.6):
+    """overwrite history of a mode-'o' case: with probability p the target holds an EARLIER save of a different graph
+    (70% an earlier state of the same graph, 30% an unrelated graph over the same name pool) instead of junk"""
+    if case["cfg"]["mode"] == "o" and r.random() < p:
+        if r.random() < 0.7:
+            case["prev_spec"], case["history"] = G.gen_prev(r, case["spec"]), "earlier-state"
+        else:
+            case["prev_spec"], case["history"] = G.gen_obj(r, depth, width), "unrelated-graph"
+        case["cfg"]["prev_compression"] = r.choice([None, 0, 4, 9])
+    return case
+
+
 def gen_cases(ctx: Ctx):
     r = ctx.rng
     cases = []
     n = 0
     for label, spec in G.special_pool():
         cfg = G.gen_cfg(r)
-        cases.append({"id": "p%03d" % n, "prop": "C01", "label": label, "spec": spec, "cfg": cfg, "dispatch": True,
+        cases.append(_history(r, {"id": "p%03d" % n, "prop": "C01", "label": label, "spec": spec, "cfg": cfg, "dispatch": True,
                       "fixpoint": True, "other_store": dict(G.gen_cfg(r), store="dir" if cfg["store"] == "zip" else "zip", mode="w"),
-                      "known_limit": False})
+                      "known_limit": False}))
         n += 1
+    # always-run overwrite histories: each graph is saved over an earlier, larger state of itself (every container and
+    # object extended, every array re-filled), once per store; the other store goes through the same history
+    for label, spec in G.history_pool():
+        for store in ("dir", "zip"):
+            cfg = dict(G.gen_cfg(r), store=store, mode="o", prev_compression=r.choice([None, 0, 4, 9]))
+            cases.append({"id": "h%03d" % n, "prop": "C01", "label": label, "spec": spec, "cfg": cfg, "dispatch": False,
+                          "fixpoint": True, "other_store": dict(G.gen_cfg(r), store="dir" if store == "zip" else "zip", mode="o"),
+                          "known_limit": False, "prev_spec": G.gen_prev(r, spec, p_ext=1.0), "history": "earlier-state"})
+            n += 1
     for label, spec in G.oracle_only_pool():
         cfg = G.gen_cfg(r)
         cases.append({"id": "o%03d" % n, "prop": "C01", "label": label, "spec": spec, "cfg": cfg, "dispatch": False,
@@ -93,11 +114,11 @@ def gen_cases(ctx: Ctx):
         spec = G.gen_obj(r, depth, width)
         cfg = G.gen_cfg(r)
         # thorough tier: second save/load (fixed point) and the other store for EVERY case
-        cases.append({"id": "r%04d" % j, "prop": "C01", "label": "graph", "spec": spec, "cfg": cfg, "dispatch": j % 4 == 0,
+        cases.append(_history(r, {"id": "r%04d" % j, "prop": "C01", "label": "graph", "spec": spec, "cfg": cfg, "dispatch": j % 4 == 0,
                       "fixpoint": j % 3 == 0 or not ctx.quick,
                       "other_store": dict(G.gen_cfg(r), store="dir" if cfg["store"] == "zip" else "zip", mode="w")
                       if (j % 3 == 1 or not ctx.quick) else None,
-                      "known_limit": False})
+                      "known_limit": False}, depth, width))
     return cases
 
 
@@ -141,12 +162,18 @@ def run(ctx: Ctx):
         "containers, loggers, attrs-decorated classes with and without slots) + oracle-only pool (SummaryWriter) + known-limit pool "
         "+ outside-domain pool (optimizer/scheduler inside containers: model agreement recorded) + seeded random graphs (depth<=3/"
         "width<=4 quick, depth<=5/width<=8 thorough; 12% attrs classes)], each with a random (store, compression in {None,0..9}, "
-        "str|Path target, mode w|o); second save/load of the loaded object and the other store for every pool case, a third of the "
+        "str|Path target, mode w|o; 60% of the mode-o cases are written over an EARLIER SAVE OF A DIFFERENT GRAPH at the same target "
+        "- 70% an earlier state of the same graph (containers/objects with more children, arrays with other contents or shapes, "
+        "non-zero where the later array is all fill value, members of another storage kind), 30% an unrelated graph - the rest over "
+        "junk; two always-run histories per store); second save/load of the loaded object and the other store for every pool case, a third of the "
         "random quick cases and every thorough case; a case is distinct by (spec, configuration) and non-trivial when the graph has "
         ">= 4 values")
     ctx.assumptions += ASSUMPTIONS
     ctx.cov["trusted_base"] += TRUSTED
     ctx.proofs_or_violation()
+    # source tie: serialize.py is translated NOW and proved equal to what the model assumes (harness/c01_tie.py)
+    from ..c01_tie import run_tie
+    ctx.tie_ok = run_tie(ctx)
     try:
         _run(ctx)
     finally:
@@ -171,6 +198,8 @@ def _run(ctx: Ctx):
         ctx.dist("compression/%s" % cfg["compression"])
         ctx.dist("target/" + ("Path" if cfg["as_path"] else "str"))
         ctx.dist("mode/" + cfg["mode"])
+        ctx.dist("overwrite-history/" + (("%s/%s" % (case["history"], cfg["store"])) if case.get("prev_spec") else
+                                         "junk-at-target" if cfg["mode"] == "o" else "fresh-target"))
         ctx.dist("source/" + ("known-limit" if case["known_limit"] else "outside-pool" if case.get("outside") else
                               "pool" if case["label"] != "graph" else "random"))
         for cls in set(_classes_in(case["spec"], [])):
@@ -273,6 +302,28 @@ def _run(ctx: Ctx):
         dexprs.append("disp %s" % row["term"])
         drows.append(row)
     dvals = ctx.coq_eval("disp", PRE, dexprs, shard=60)
+    # cross-test of the translator: the chain translated from the source (gen_chain under C01_TieLib.geval) against the
+    # SAME tests compiled from the source AST and evaluated on the real objects (row["guards"]); _is_numeric_scalar likewise
+    if getattr(ctx, "tie_ok", False):
+        pre_t = PRE + ("From QV.lib Require Import C01_TieLib.\nFrom GenC01 Require Import Gen_C01Tie C01_Tie_GenProofs.\n"
+                       "Definition dispg (v : value) := (map (fun e => geval e v) gen_chain, tys_ok_num v, geval gen_is_numeric v, "
+                       "Z.of_nat (first_true_e gen_chain v 0)).\n")
+        gvals = ctx.coq_eval("dispg", pre_t, ["dispg %s" % r["term"] for r in drows], shard=60, extra_flags=["-Q", str(ctx.dir), "GenC01"])
+        n_x = 0
+        for row, gv in zip(drows, gvals):
+            vec, ok_dom, isnum, first = gv
+            n_x += 1
+            ctx.dist("source-tie-cross-test/" + ("in-domain" if ok_dom else "outside-tys_ok"))
+            py_first = row["guards"].index(True) if True in row["guards"] else 15
+            if not ok_dom or list(vec) != row["guards"] or bool(isnum) != row["is_numeric"] or first != py_first or not row.get("guards_from_source"):
+                nd += 1
+                ctx.cov["disagreements_checked"] += 1
+                ctx.violation("source-tie-cross-test",
+                              "the chain translated from serialize.py, evaluated by the model on the value of a real %s, differs from the source's own tests "
+                              "evaluated on the object: translated=%s first=%s numeric=%s in-domain=%s; source=%s first=%s numeric=%s (compiled from source: %s)"
+                              % (row["type"], vec, first, isnum, ok_dom, row["guards"], py_first, row["is_numeric"], row.get("guards_from_source")),
+                              {"kind": "dispatch", "row": row}, found_input=False)
+        ctx.cov["source_tie"]["cross_test_rows"] = n_x
     for row, v in zip(drows, dvals):
         gv, d, intended, tys, abcs = v
         ctx.cov["traces_validated_against_impl"] += 1
@@ -310,6 +361,8 @@ def replay(ctx: Ctx, path):
     res = run_case(case)
     print("spec:", json.dumps(case["spec"]))
     print("cfg:", case["cfg"])
+    if case.get("prev_spec"):
+        print("earlier graph saved at the same target first (then overwritten with mode 'o'):", json.dumps(case["prev_spec"]))
     for k, m in res["diffs"]:
         print("oracle: [%s] %s" % (k, m))
     if not res["diffs"]:
